@@ -45,6 +45,8 @@ UNITS = {
     "cdata": "<svg><![CDATA[x]]>", "anno": "<math><annotation-xml encoding=text/html>", "fo": "<svg><foreignObject>",
     "option": "<option>", "optgroup": "<optgroup>", "hr": "<hr>", "br": "</br>", "h1": "<h1>", "form": "<form>", "ruby": "<ruby><rt>",
 }
+C14_EDGE = ["&", "&;", "&a", "&1", "&zz;", "&zz", "&foo;", "&foo", "&am", "&amp", "&ampa", "&amp=", "&notit;", "&noti", "& amp;", "&#",
+            "&#;", "&#x", "&#x;", "&#xg", "&#0;", "&#x110000;", "&#xD800;", "&#12", "&x;", "&x1;", "&1x;", "&Aacute", "&Aacutex;"]
 CTXS = ["html:div", "html:table", "html:tr", "html:td", "html:select", "html:template", "html:title", "html:textarea", "html:script",
         "html:style", "html:plaintext", "html:head", "html:html", "html:frameset", "svg:svg", "svg:foreignObject", "math:math",
         "math:annotation-xml", "html:body", "html:colgroup", "html:caption", "html:tbody"]
@@ -76,6 +78,32 @@ def gen_cases(tier, rng):
             cases.append(("xmltok\ttok\texact=%d,bom=1\t-\t%s" % (exact, _hx(u * n)), "xmltok"))
             cases.append(("xmltok\ttok\texact=%d,bom=1\t-\t%s" % (exact, "|".join(_hx(u) for _ in range(min(n, 100)))), "xmltok"))
             cases.append(("xmltok\ttree\texact=%d,bom=1\t%s" % (exact, _hx(u * n)), "xmltree"))
+    # a sink that answers Script to every </script> (what the XML tree builder does), input cut at every prefix:
+    # the pending tag is emitted at EOF and the EOF token must still follow it
+    for doc in ["<a><script>x</script>y</a>", "<script></script>", "<a><script/></script></a>", "<a><script></script  >z",
+                "<a><script b='c'></script b='d'>", "<script><script></script></script>"]:
+        for k in range(len(doc) + 1):
+            pre = doc[:k]
+            for exact in (0, 1):
+                cases.append(("xmltok\ttok\texact=%d,bom=1,script=1\t-\t%s" % (exact, _hx(pre)), "xmltok-script"))
+                if pre:
+                    cases.append(("xmltok\ttok\texact=%d,bom=1,script=1\t-\t%s" % (exact, "|".join(_hx(c) for c in pre)), "xmltok-script"))
+    # every element name opened, closed and left open under every fragment context and as a document, through the
+    # real tokenizer + tree builder + RcDom (`tb txt`: reports panics, EOF count, whether EOF was last)
+    from props import tbcommon as tb
+    names = tb.NAMES if isinstance(tb.NAMES, list) else tb.NAMES.split()
+    ctxs = [None] + list(tb.CONTEXTS)
+    for name in names:
+        for text in ("<%s>x</%s>y" % (name, name), "</%s>x" % name, "a<%s>" % name, "<%s/></%s></%s>" % (name, name, name)):
+            for ci, c in enumerate(ctxs):
+                if tier == "quick" and c is not None and (ci + len(name)) % 3 and text[1] != "/":
+                    continue   # quick: every context sees every end tag, a third of the rest
+                cx = "-" if c is None else tb.ctx(c[0], c[1], c[2])
+                cases.append((tb.case_txt([text], tb.opts(s=(ci % 2)), cx), "tb-total"))
+    for s in C14_EDGE:
+        for exact in (0, 1):
+            for body in ("x" + s + "y", "<a b='" + s + "' c=" + s + ">"):
+                cases.append((tc.case([body], exact=exact), "tok"))
     # (3) whole parsers on pathological inputs
     depth = 3000 if tier == "quick" else 30000
     for name, unit in UNITS.items():
@@ -115,6 +143,9 @@ def oracle(line, out):
     elif line.startswith("xmltok\ttok"):
         if "EOF" not in out:
             return "xml tokenizer delivered no EOF: %s" % out[:200]
+    elif line.startswith("tb\t"):
+        if "@K=" not in out or not out.endswith("@K=1,1"):
+            return "tree-building parse did not complete with exactly one EOF, last: %s" % out[-200:]
     elif line.startswith("total\t"):
         if not out.startswith("ok ") or "drained=1" not in out:
             return "input queue not drained after feed / parse not ok: %s" % out[:200]
